@@ -61,9 +61,9 @@ Section Reported.
   Lemma inflateD_precision_on p ps d a : bad_precision p -> to_outcome (inflateD true pow10 p ps d a) = Thrown 1.
   Proof. intros H. unfold inflateD. rewrite (cpr_invalid_on p 0 H). reflexivity. Qed.
 
-  Lemma inflateD_precision_off p ps d a : bad_precision p -> feqb d 0 = false ->
+  Lemma inflateD_precision_off p ps d a : bad_precision p ->
     to_outcome (inflateD false pow10 p ps d a) = Code 1 VEmpty.
-  Proof. intros H Hd. unfold inflateD. rewrite (cpr_invalid_off p 0 H). cbn [bind]. rewrite Hd. reflexivity. Qed.
+  Proof. intros H. unfold inflateD. rewrite (cpr_invalid_off p 0 H). reflexivity. Qed.
 
   Lemma rectclipD_precision_on p r ps : bad_precision p -> rect_is_empty r = false -> ps <> [] ->
     to_outcome (rectclipD true pow10 p r ps) = Thrown 1.
@@ -85,6 +85,21 @@ Section Reported.
   Lemma trimcollinearD_precision_off p pth : bad_precision p -> to_outcome (trimcollinearD false pow10 p pth) = Code 1 VEmpty.
   Proof. intros H. unfold trimcollinearD. rewrite (cpr_invalid_off p 0 H). reflexivity. Qed.
 
+  Lemma minkowskiD_precision_on p pat pth : bad_precision p -> to_outcome (minkowskiD true pow10 p pat pth) = Thrown 1.
+  Proof. intros H. unfold minkowskiD. rewrite (cpr_invalid_on p 0 H). reflexivity. Qed.
+
+  Lemma minkowskiD_precision_off p pat pth : bad_precision p -> to_outcome (minkowskiD false pow10 p pat pth) = Code 1 VEmpty.
+  Proof. intros H. unfold minkowskiD. rewrite (cpr_invalid_off p 0 H). reflexivity. Qed.
+
+  (* an empty rectangle or an empty set of paths is answered (with nothing) before the precision is looked at: no result is
+     computed from the precision, in either build *)
+  Lemma rectclipD_empty_shortcut exc p r ps : rect_is_empty r = true \/ ps = [] -> rectclipD exc pow10 p r ps = Val (0, VEmpty).
+  Proof.
+    intros [H|H]; unfold rectclipD.
+    - rewrite H. reflexivity.
+    - subst ps. rewrite orb_true_r. reflexivity.
+  Qed.
+
   Lemma clipperD_precision_on p aS aO aC S O C : bad_precision p ->
     to_outcome (clipperD_run true pow10 p aS aO aC S O C) = Thrown 1.
   Proof. intros H. unfold clipperD_run, clipperD_ctor. rewrite (cpr_invalid_on p 0 H). reflexivity. Qed.
@@ -96,16 +111,6 @@ Definition tri : fpath := [(0%float, 0%float); (1%float, 0%float); (0%float, 1%f
 
 Definition is_call (o : outcome value) : bool := match o with Ok (VCall _) => true | _ => false end.
 
-(* MinkowskiSum/Diff(PathD) with 12 decimal places: computed as if nothing were wrong, in both builds *)
-Lemma minkowskiD_precision_ignored :
-  bad_precision 12 /\ forall exc, is_call (to_outcome (minkowskiD exc pow10_spec 12 tri sq)) = true.
-Proof. split; [unfold bad_precision; lia|]. intros [|]; vm_compute; reflexivity. Qed.
-
-(* InflatePaths(PathsD) with delta = 0, exceptions disabled: the input comes back although the error code is set *)
-Lemma inflateD_delta0_noexc :
-  bad_precision 12 /\ to_outcome (inflateD false pow10_spec 12 [sq] 0 0) = Code 1 VInput.
-Proof. split; [unfold bad_precision; lia|]. vm_compute; reflexivity. Qed.
-
 (* ClipperD used directly, exceptions disabled: the code is set but a (clamped) result is computed *)
 Lemma clipperD_precision_noexc :
   bad_precision 12 /\
@@ -114,11 +119,6 @@ Lemma clipperD_precision_noexc :
 Proof.
   split; [unfold bad_precision; lia|]. eexists. split; [vm_compute; reflexivity|]. cbn. discriminate.
 Qed.
-
-(* RectClip(PathsD) with an empty rectangle, exceptions enabled: returns before the precision is looked at *)
-Lemma rectclipD_empty_before_precision :
-  bad_precision 12 /\ to_outcome (rectclipD true pow10_spec 12 (0%float, 0%float, 0%float, 5%float) [sq]) = Ok VEmpty.
-Proof. split; [unfold bad_precision; lia|]. vm_compute; reflexivity. Qed.
 
 (* ---------- range ---------- *)
 Lemma scale_paths_range_on sx sy ps ec : range_ok sx sy ps = false ->
@@ -129,33 +129,96 @@ Lemma scale_paths_range_off sx sy ps ec : range_ok sx sy ps = false ->
   scale_paths_E false sx sy ps ec = Val (Some [], Z.lor ec 64).
 Proof. intros H. unfold scale_paths_E. rewrite H. reflexivity. Qed.
 
+(* ScalePath: the same test on the one path (nonzero scales; for a zero scale see below) *)
+Lemma scale_path_range_on sx sy p ec : feqb sx 0 || feqb sy 0 = false -> range_ok sx sy [p] = false ->
+  scale_path_E true sx sy p ec = Throw 64 (Z.lor ec 64).
+Proof. intros Hz H. unfold scale_path_E, scale_path_ranged. rewrite Hz, H. reflexivity. Qed.
+
+Lemma scale_path_range_off sx sy p ec : feqb sx 0 || feqb sy 0 = false -> range_ok sx sy [p] = false ->
+  scale_path_E false sx sy p ec = Val (Some [], Z.lor ec 64).
+Proof. intros Hz H. unfold scale_path_E, scale_path_ranged. rewrite Hz, H. reflexivity. Qed.
+
+(* a zero scale without exceptions: scale_error_i, the scale becomes 1, and then the range test is made with that 1 *)
+Lemma scale_path_zero_then_range_off p ec : range_ok 1 1 [p] = false ->
+  scale_path_E false 0 0 p ec = Val (Some [], Z.lor (Z.lor ec 2) 64).
+Proof. intros H. unfold scale_path_E, scale_path_ranged. cbn [feqb orb bind do_error fix_zero]. vm_compute (fix_zero 0). rewrite H. reflexivity. Qed.
+
 Lemma lor64_nonzero ec : (Z.lor ec 64 =? 0) = false.
 Proof.
   apply Z.eqb_neq. intro E. assert (B : Z.testbit (Z.lor ec 64) 6 = true) by (rewrite Z.lor_spec; cbn; apply orb_true_r).
   rewrite E in B. cbn in B. discriminate.
 Qed.
 
+(* without exceptions the error code only accumulates: every scaling step returns its input code or-ed with something *)
+Lemma scale_path_ranged_off_acc sx sy p ec : exists v k, scale_path_ranged false sx sy p ec = Val (v, Z.lor ec k).
+Proof.
+  unfold scale_path_ranged. destruct (range_ok sx sy [p]); cbn [negb bind do_error].
+  - exists (scale_path sx sy p), 0. rewrite Z.lor_0_r. reflexivity.
+  - exists (Some []), 64. reflexivity.
+Qed.
+
+Lemma scale_path_E_off_acc sx sy p ec : exists v k, scale_path_E false sx sy p ec = Val (v, Z.lor ec k).
+Proof.
+  unfold scale_path_E. destruct (feqb sx 0 || feqb sy 0); cbn [bind do_error].
+  - destruct (scale_path_ranged_off_acc (fix_zero sx) (fix_zero sy) p (Z.lor ec scale_error_i)) as [v [k E]].
+    exists v, (Z.lor scale_error_i k). rewrite E. rewrite Z.lor_assoc. reflexivity.
+  - apply scale_path_ranged_off_acc.
+Qed.
+
+Lemma scale_each_off_acc sx sy ps : forall ec, exists v k, scale_each false sx sy ps ec = Val (v, Z.lor ec k).
+Proof.
+  induction ps as [|p r IH]; intros ec; cbn [scale_each].
+  - exists (Some []), 0. rewrite Z.lor_0_r. reflexivity.
+  - destruct (scale_path_E_off_acc sx sy p ec) as [v1 [k1 E1]]. rewrite E1. cbn [bind].
+    destruct (IH (Z.lor ec k1)) as [v2 [k2 E2]]. rewrite E2. cbn [bind].
+    eexists. exists (Z.lor k1 k2). rewrite Z.lor_assoc. reflexivity.
+Qed.
+
+Lemma scale_paths_E_off_acc sx sy ps ec : exists v k, scale_paths_E false sx sy ps ec = Val (v, Z.lor ec k).
+Proof.
+  unfold scale_paths_E. destruct (range_ok sx sy ps); cbn [negb bind do_error].
+  - apply scale_each_off_acc.
+  - exists (Some []), 64. reflexivity.
+Qed.
+
+Lemma lor_lor64_nonzero a k : (Z.lor (Z.lor a 64) k =? 0) = false.
+Proof.
+  apply Z.eqb_neq. intro E.
+  assert (B : Z.testbit (Z.lor (Z.lor a 64) k) 6 = true) by (rewrite !Z.lor_spec; cbn; rewrite orb_true_r; reflexivity).
+  rewrite E in B. cbn in B. discriminate.
+Qed.
+
 Section RangeReported.
   Variable pow10 : Z -> float.
 
-  Lemma inflateD_range p ps d a : - 8 <= p <= 8 -> feqb d 0 = false ->
+  Lemma inflateD_range p ps d a : - 8 <= p <= 8 ->
     range_ok (pow10 p) (pow10 p) ps = false ->
     to_outcome (inflateD true pow10 p ps d a) = Thrown 64 /\
     to_outcome (inflateD false pow10 p ps d a) = Code 64 VEmpty.
   Proof.
-    intros Hp Hd Hr. unfold inflateD. rewrite !(cpr_valid _ p 0 Hp). cbn [bind]. rewrite Hd. cbn [Z.eqb negb].
+    intros Hp Hr. unfold inflateD. rewrite !(cpr_valid _ p 0 Hp). cbn [bind Z.eqb negb].
     rewrite (scale_paths_range_on _ _ _ 0 Hr), (scale_paths_range_off _ _ _ 0 Hr). split; reflexivity.
   Qed.
 
   Lemma rectclipD_range p r r64 ps : - 8 <= p <= 8 -> rect_is_empty r = false -> ps <> [] ->
-    scale_rect (pow10 p) r = Some r64 ->
+    rect_range_ok (pow10 p) r = true -> scale_rect (pow10 p) r = Some r64 ->
     range_ok (pow10 p) (pow10 p) ps = false ->
     to_outcome (rectclipD true pow10 p r ps) = Thrown 64 /\
     to_outcome (rectclipD false pow10 p r ps) = Code 64 VEmpty.
   Proof.
-    intros Hp Hre Hne Hr64 Hr. unfold rectclipD. rewrite Hre. destruct ps; [contradiction|]. cbn [orb].
-    rewrite !(cpr_valid _ p 0 Hp). cbn [bind Z.eqb negb]. rewrite Hr64.
+    intros Hp Hre Hne Hrr Hr64 Hr. unfold rectclipD. rewrite Hre. destruct ps; [contradiction|]. cbn [orb].
+    rewrite !(cpr_valid _ p 0 Hp). cbn [bind Z.eqb negb]. rewrite Hrr. cbn [negb]. rewrite Hr64.
     rewrite (scale_paths_range_on _ _ _ 0 Hr), (scale_paths_range_off _ _ _ 0 Hr). split; reflexivity.
+  Qed.
+
+  (* the rectangle itself *)
+  Lemma rectclipD_rect_range p r ps : - 8 <= p <= 8 -> rect_is_empty r = false -> ps <> [] ->
+    rect_range_ok (pow10 p) r = false ->
+    to_outcome (rectclipD true pow10 p r ps) = Thrown 64 /\
+    to_outcome (rectclipD false pow10 p r ps) = Code 64 VEmpty.
+  Proof.
+    intros Hp Hre Hne Hrr. unfold rectclipD. rewrite Hre. destruct ps; [contradiction|]. cbn [orb].
+    rewrite !(cpr_valid _ p 0 Hp). cbn [bind Z.eqb negb]. rewrite Hrr. split; reflexivity.
   Qed.
 
   Lemma clipperD_range_on p S O C : - 8 <= p <= 8 ->
@@ -174,6 +237,69 @@ Section RangeReported.
     unfold clipperD_run, clipperD_ctor. rewrite (cpr_valid _ p 0 Hp). cbn [bind].
     rewrite (scale_paths_range_on _ _ _ 0 Hr). reflexivity.
   Qed.
+
+  (* exceptions disabled: BooleanOp(PathsD) / Union(subjects) look at the ClipperD's code after the Add* calls and
+     return nothing when either operand failed the range test *)
+  Lemma booleanopD_range_off p S C : - 8 <= p <= 8 ->
+    range_ok (scaleD_model pow10 p) (scaleD_model pow10 p) S = false \/
+    range_ok (scaleD_model pow10 p) (scaleD_model pow10 p) C = false ->
+    to_outcome (booleanopD false pow10 p S C) = Ok VEmpty.
+  Proof.
+    intros Hp Hr. unfold booleanopD. rewrite (cpr_valid _ p 0 Hp). cbn [bind Z.eqb negb].
+    unfold clipperD_run, clipperD_ctor. rewrite (cpr_valid _ p 0 Hp). cbn [bind].
+    set (s := scaleD_model pow10 p) in *.
+    destruct Hr as [Hr|Hr].
+    - rewrite (scale_paths_range_off _ _ _ 0 Hr). cbn [bind].
+      destruct (scale_paths_E_off_acc s s C (Z.lor 0 64)) as [v [k E]]. rewrite E. cbn [bind after_adds].
+      rewrite lor_lor64_nonzero. reflexivity.
+    - destruct (scale_paths_E_off_acc s s S 0) as [v [k E]]. rewrite E. cbn [bind].
+      rewrite (scale_paths_range_off _ _ _ _ Hr). cbn [bind after_adds].
+      rewrite lor64_nonzero. reflexivity.
+  Qed.
+
+  Lemma union1D_range_off p S : - 8 <= p <= 8 ->
+    range_ok (scaleD_model pow10 p) (scaleD_model pow10 p) S = false ->
+    to_outcome (union1D false pow10 p S) = Ok VEmpty.
+  Proof.
+    intros Hp Hr. unfold union1D. rewrite (cpr_valid _ p 0 Hp). cbn [bind Z.eqb negb].
+    unfold clipperD_run, clipperD_ctor. rewrite (cpr_valid _ p 0 Hp). cbn [bind].
+    rewrite (scale_paths_range_off _ _ _ 0 Hr). cbn [bind after_adds]. reflexivity.
+  Qed.
+
+  (* TrimCollinear(PathD) and MinkowskiSum/Diff(PathD) go through ScalePath, which now has the test *)
+  Lemma trimcollinearD_range p pth : - 8 <= p <= 8 -> feqb (pow10 p) 0 = false ->
+    range_ok (pow10 p) (pow10 p) [pth] = false ->
+    to_outcome (trimcollinearD true pow10 p pth) = Thrown 64 /\
+    to_outcome (trimcollinearD false pow10 p pth) = Code 64 VEmpty.
+  Proof.
+    intros Hp Hz Hr. unfold trimcollinearD. rewrite !(cpr_valid _ p 0 Hp). cbn [bind Z.eqb negb].
+    assert (Hz2 : feqb (pow10 p) 0 || feqb (pow10 p) 0 = false) by (rewrite Hz; reflexivity).
+    rewrite (scale_path_range_on _ _ _ 0 Hz2 Hr), (scale_path_range_off _ _ _ 0 Hz2 Hr). split; reflexivity.
+  Qed.
+
+  Lemma minkowskiD_range p pat pth : - 8 <= p <= 8 -> feqb (pow10 p) 0 = false ->
+    range_ok (pow10 p) (pow10 p) [pat] = false \/ range_ok (pow10 p) (pow10 p) [pth] = false ->
+    (exists ec, minkowskiD true pow10 p pat pth = Throw 64 ec) /\
+    (exists ec, minkowskiD false pow10 p pat pth = Val (ec, VEmpty) /\ Z.testbit ec 6 = true).
+  Proof.
+    intros Hp Hz Hr. unfold minkowskiD. rewrite !(cpr_valid _ p 0 Hp). cbn [bind Z.eqb negb].
+    set (s := pow10 p) in *.
+    assert (Hz2 : feqb s 0 || feqb s 0 = false) by (rewrite Hz; reflexivity).
+    destruct Hr as [Hr|Hr].
+    - rewrite (scale_path_range_on _ _ _ 0 Hz2 Hr), (scale_path_range_off _ _ _ 0 Hz2 Hr). cbn [bind].
+      split; [eexists; reflexivity|].
+      destruct (scale_path_E_off_acc s s pth (Z.lor 0 64)) as [v [k E]]. rewrite E. cbn [bind].
+      rewrite lor_lor64_nonzero. cbn [negb]. eexists. split; [reflexivity|].
+      rewrite !Z.lor_spec. cbn. rewrite orb_true_r. reflexivity.
+    - split.
+      + unfold scale_path_E at 1. rewrite Hz2. unfold scale_path_ranged at 1.
+        destruct (range_ok s s [pat]); cbn [negb bind do_error].
+        * rewrite (scale_path_range_on _ _ _ 0 Hz2 Hr). eexists; reflexivity.
+        * eexists; reflexivity.
+      + destruct (scale_path_E_off_acc s s pat 0) as [v [k E]]. rewrite E. cbn [bind].
+        rewrite (scale_path_range_off _ _ _ _ Hz2 Hr). cbn [bind]. rewrite lor64_nonzero. cbn [negb].
+        eexists. split; [reflexivity|]. rewrite !Z.lor_spec. cbn. rewrite orb_true_r. reflexivity.
+  Qed.
 End RangeReported.
 
 Definition huge_sq : fpath := [(0%float, 0%float); (0x1p+300%float, 0%float); (10%float, 10%float); (0%float, 10%float)].
@@ -181,48 +307,62 @@ Definition nan_sq : fpath := [(0%float, 0%float); (nan, 0%float); (10%float, 10%
 (* 2^62 / 100: scaled by 100 it is far beyond MAX_COORD = 2^61-1 yet still an int64 *)
 Definition big_sq : fpath := [(0%float, 0%float); (0x1.47ae147ae147bp+55%float, 0%float); (10%float, 10%float); (0%float, 10%float)].
 
-(* BooleanOp(PathsD), exceptions disabled: the oversized subject is dropped, the clip comes back, no code visible *)
-Lemma booleanopD_range_noexc :
-  range_ok (scaleD_spec 2) (scaleD_spec 2) [huge_sq] = false /\
-  exists c, to_outcome (booleanopD false pow10_spec 2 [huge_sq] [sq]) = Ok (VCall c) /\ nth 0 (c_paths c) [] = [].
-Proof. split; [vm_compute; reflexivity|]. eexists. split; vm_compute; reflexivity. Qed.
+(* the hypotheses of the range lemmas are satisfiable, and the former silent acceptances are now reported *)
+Example range_hyps_sat :
+  range_ok 100 100 [huge_sq] = false /\ range_ok 100 100 [big_sq] = false /\ in_coord_range (pow10_spec 2) [big_sq] = false /\
+  rect_range_ok 100 (0%float, 0%float, 0x1p+300%float, 5%float) = false /\
+  rect_range_ok 100 (0%float, 0%float, 5%float, 5%float) = true /\
+  feqb (pow10_spec 2) 0 = false.
+Proof. repeat split; vm_compute; reflexivity. Qed.
 
+Example range_now_reported :
+  (scale_path_E true 100 100 huge_sq 0 = Throw 64 64 /\ scale_path_E false 100 100 big_sq 0 = Val (Some [], 64)) /\
+  (to_outcome (trimcollinearD true pow10_spec 2 big_sq) = Thrown 64 /\ to_outcome (trimcollinearD false pow10_spec 2 huge_sq) = Code 64 VEmpty) /\
+  (to_outcome (minkowskiD true pow10_spec 2 tri big_sq) = Thrown 64 /\ to_outcome (minkowskiD false pow10_spec 2 tri huge_sq) = Code 64 VEmpty) /\
+  (to_outcome (rectclipD true pow10_spec 2 (0%float, 0%float, 0x1p+300%float, 5%float) [sq]) = Thrown 64 /\
+   to_outcome (rectclipD false pow10_spec 2 (0%float, 0%float, 0x1p+300%float, 5%float) [sq]) = Code 64 VEmpty) /\
+  to_outcome (booleanopD false pow10_spec 2 [huge_sq] [sq]) = Ok VEmpty.
+Proof. repeat split; vm_compute; reflexivity. Qed.
+
+(* ClipperD used directly, exceptions disabled: the oversized subject is dropped (code 64 is set) and a result is
+   computed from the remaining operands *)
 Lemma clipperD_range_noexc :
   exists c, to_outcome (clipperD_run false pow10_spec 2 true true true [huge_sq] [] [sq]) = Code 64 (VCall c)
             /\ nth 2 (c_paths c) [] <> [].
 Proof. eexists. split; [vm_compute; reflexivity|]. cbn. discriminate. Qed.
 
-(* NaN passes the range test of ScalePaths: undefined conversion, nothing reported, in both builds *)
+(* the C export of the same (BooleanOpD / BooleanOp_PolyTreeD never read ClipperD::ErrorCode()): return code 0 *)
+Lemma export_booleanopD_range_noexc :
+  exists c, export_booleanopD false pow10_spec 2 1 2 [huge_sq] [] [sq] = inl (Val (0, VCall c)) /\ nth 0 (c_paths c) [] = []
+            /\ nth 2 (c_paths c) [] <> [].
+Proof. eexists. split; [vm_compute; reflexivity|]. split; [reflexivity|]. cbn. discriminate. Qed.
+
+(* NaN passes the range tests (all comparisons with NaN are false, GetBounds never selects it): undefined conversion,
+   nothing reported, in both builds *)
 Lemma scale_paths_nan_unchecked : forall exc, scale_paths_E exc 100 100 [nan_sq] 0 = Val (None, 0).
+Proof. intros [|]; vm_compute; reflexivity. Qed.
+
+Lemma scale_path_nan_unchecked : forall exc, scale_path_E exc 100 100 nan_sq 0 = Val (None, 0).
 Proof. intros [|]; vm_compute; reflexivity. Qed.
 
 Lemma booleanopD_nan_unchecked : forall exc, to_outcome (booleanopD exc pow10_spec 2 [nan_sq] [sq]) = Ok VUndef.
 Proof. intros [|]; vm_compute; reflexivity. Qed.
 
-(* ScalePath has no range test at all *)
-Lemma scale_path_range_unchecked : forall exc, scale_path_E exc 100 100 huge_sq 0 = Val (None, 0).
+Lemma rectclipD_rect_nan_unchecked :
+  forall exc, to_outcome (rectclipD exc pow10_spec 2 (0%float, 0%float, nan, 5%float) [sq]) = Ok VUndef.
 Proof. intros [|]; vm_compute; reflexivity. Qed.
 
-Lemma trimcollinearD_range_unchecked :
-  forall exc, to_outcome (trimcollinearD exc pow10_spec 2 huge_sq) = Ok VUndef /\
-              is_call (to_outcome (trimcollinearD exc pow10_spec 2 big_sq)) = true /\
-              in_coord_range (pow10_spec 2) [big_sq] = false.
-Proof. intros [|]; repeat split; vm_compute; reflexivity. Qed.
-
-Lemma minkowskiD_range_unchecked :
-  forall exc, to_outcome (minkowskiD exc pow10_spec 2 tri huge_sq) = Ok VUndef /\
-              is_call (to_outcome (minkowskiD exc pow10_spec 2 tri big_sq)) = true.
-Proof. intros [|]; repeat split; vm_compute; reflexivity. Qed.
-
-(* ScaleRect has no range test *)
-Lemma rectclipD_rect_unchecked :
-  forall exc, to_outcome (rectclipD exc pow10_spec 2 (0%float, 0%float, 0x1p+300%float, 5%float) [sq]) = Ok VUndef.
-Proof. intros [|]; vm_compute; reflexivity. Qed.
-
-(* the C exports convert with Point64(double,double) and no range test *)
+(* the C exports convert with Point64(double,double) / ScaleRect and no range test *)
 Lemma export_inflateD_range_unchecked :
-  export_inflateD pow10_spec 2 [huge_sq] 1 0 = inl (Val (0, VUndef)).
-Proof. vm_compute; reflexivity. Qed.
+  export_inflateD pow10_spec 2 [huge_sq] 1 0 = inl (Val (0, VUndef)) /\
+  exists c, export_inflateD pow10_spec 2 [big_sq] 1 0 = inl (Val (0, VCall c)).
+Proof. split; [vm_compute; reflexivity|]. eexists. vm_compute. reflexivity. Qed.
+
+Lemma export_rectD_range_unchecked :
+  export_rectD pow10_spec 2 (0%float, 0%float, 5%float, 5%float) [huge_sq] = inl (Val (0, VUndef)) /\
+  export_rectD pow10_spec 2 (0%float, 0%float, 0x1p+300%float, 5%float) [sq] = inl (Val (0, VUndef)) /\
+  exists c, export_rectD pow10_spec 2 (0%float, 0%float, 0x1.47ae147ae147bp+55%float, 5%float) [sq] = inl (Val (0, VCall c)).
+Proof. split; [vm_compute; reflexivity|]. split; [vm_compute; reflexivity|]. eexists. vm_compute. reflexivity. Qed.
 
 (* ---------- zero scale ---------- *)
 Lemma scale_path_zero_on sx sy p ec : feqb sx 0 || feqb sy 0 = true ->
